@@ -4,7 +4,10 @@ package main
 
 import (
 	"bytes"
+	"crypto"
+	"crypto/ed25519"
 	"crypto/rand"
+	"crypto/rsa"
 	"crypto/sha256"
 	"fmt"
 	"strings"
@@ -52,6 +55,11 @@ func unitC16(e common.Env, p *common.Part) {
 	env.listen(1, true) // node 1 is the server under test
 	srv := env.nodes[1]
 	fk := newForeignKeys()
+	// identities with other key types are REGISTERED as nodes 7 (RSA), 8 (Ed25519) and 9 (P-384): presenting them must still
+	// yield nothing for the unsupported types, whatever the signature, and for P-384 only with a valid signature
+	env.p2id[lookupKey("dom", fk.rsaCert)] = 7
+	env.p2id[lookupKey("dom", fk.edCert)] = 8
+	env.p2id[lookupKey("dom", fk.p384Cert)] = 9
 	unreg, _ := env.ca.NewClientCertKeyPair() // a valid certificate of the same CA that is not registered
 	n2, n3, n5 := env.nodes[2], env.nodes[3], env.nodes[5]
 
@@ -127,11 +135,36 @@ func unitC16(e common.Env, p *common.Part) {
 	identity("PEM block that is not a certificate", []byte("-----BEGIN CERTIFICATE-----\nAAAA\n-----END CERTIFICATE-----\n"), func(h *comm.Handshake) { signWith(n2.ident, h) })
 	identity("RSA certificate", fk.rsaCert, func(h *comm.Handshake) { signWith(n2.ident, h) })
 	identity("Ed25519 certificate", fk.edCert, func(h *comm.Handshake) { signWith(n2.ident, h) })
-	identity("P-384 certificate, own valid signature", fk.p384Cert, func(h *comm.Handshake) {
+	p384sign := func(h *comm.Handshake) {
 		h.Signature = nil
 		d := sha256.Sum256(h.Bytes())
 		h.Signature, _ = fk.p384Key.Sign(rand.Reader, d[:], nil)
+	}
+	for _, reg := range []struct {
+		name string
+		cert []byte
+	}{{"registered RSA identity", fk.rsaCert}, {"registered Ed25519 identity", fk.edCert}} {
+		reg := reg
+		identity(reg.name+", no signature", reg.cert, func(h *comm.Handshake) {})
+		identity(reg.name+", junk signature", reg.cert, func(h *comm.Handshake) { h.Signature = bytes.Repeat([]byte{0x30}, 64) })
+		identity(reg.name+", signature of a registered ECDSA key", reg.cert, func(h *comm.Handshake) { signWith(n2.ident, h) })
+	}
+	identity("registered RSA identity, valid RSA signature of its owner", fk.rsaCert, func(h *comm.Handshake) {
+		h.Signature = nil
+		d := sha256.Sum256(h.Bytes())
+		h.Signature, _ = rsa.SignPKCS1v15(rand.Reader, fk.rsaKey, crypto.SHA256, d[:])
 	})
+	identity("registered Ed25519 identity, valid Ed25519 signature of its owner", fk.edCert, func(h *comm.Handshake) {
+		h.Signature = nil
+		h.Signature = ed25519.Sign(fk.edKey, h.Bytes())
+	})
+	identity("registered P-384 identity, no signature", fk.p384Cert, func(h *comm.Handshake) {})
+	identity("registered P-384 identity, signature of another key", fk.p384Cert, func(h *comm.Handshake) { signWith(n2.ident, h) })
+	add(c16case{Field: "none", Mutation: "registered P-384 (ECDSA) identity with a valid signature of its owner", Domain: "dom", Auth: func(b []byte) comm.Handshake {
+		h := comm.Handshake{Domain: "dom", TLSBinding: b, Identity: fk.p384Cert, Timestamp: time.Now().Unix()}
+		p384sign(&h)
+		return h
+	}, Entitled: 9, EntDom: "dom"})
 	// --- signature
 	sigCase := func(name string, f func(h *comm.Handshake, b []byte)) {
 		add(c16case{Field: "signature", Mutation: name, Domain: "dom", Auth: func(b []byte) comm.Handshake {
